@@ -293,6 +293,9 @@ class Parser:
                         flag = False
                     else:
                         self._parse_subtree(current)
+                        self._assert_and_cunsume(TokenType.BRACKET_RIGHT)
+                        flag = True
+                        continue
 
                 case TokenType.BRACKET_RIGHT:
                     break
